@@ -321,6 +321,9 @@ class Interp:
         if isinstance(value, str):
             return np_const(value, dt) if self.t == "numpy" else c_const(value, dt)
         with numpy.errstate(all="ignore"):
+            if self.t == "cpp" and typ.kind == "complex":
+                part = numpy.float32 if dt is numpy.complex64 else numpy.float64
+                return ("complex", part(complex(value).real), part(complex(value).imag))
             return dt(value)
 
     # ---- evaluation
